@@ -44,7 +44,7 @@ META = {
                     'does not have, so only "never blocks" (I1) and "heals" (I5) are asserted after them',
                     'after a crash a file holds the old content, the new content or an unloadable prefix (the '
                     'SimFS flushes what was written before the kill)'],
-    'probe_names': ['document_without_labels', 'common_label_saved', 'crash_between_truncate_and_write', 'crash_mid_write', 'crash_in_readback', 'crash_in_render',
+    'probe_names': ['pauxdirs_main_run', 'pauxdirs_same_job_name', 'pauxdirs_damaged_part', 'document_without_labels', 'common_label_saved', 'crash_between_truncate_and_write', 'crash_mid_write', 'crash_in_readback', 'crash_in_render',
                     'crash_before_paux', 'crash_after_save', 'loads_to_nondict', 'dict_without_renderer', 'edited_owner',
                     'healed_after_fault', 'cross_ref_resolved', 'other_block_preserved', 'xr_reader_used',
                     'corrupt_file_read', 'partial_restore_after_bad_entry', 'save_failed_run_continued', 'ioerr_open_r', 'ioerr_write', 'ioerr_open_w'],
@@ -284,7 +284,10 @@ def job(args, fs):
     plasTeX.Compile.parse = parse
     plasTeX.Compile.run.__globals__['parse'] = parse
     Context.persist = persist
-    argv = ['--renderer', args['renderer'], '--imager', 'none', '--vector-imager', 'none']
+    argv = []
+    if args.get('paux_dirs'):
+        argv += ['--paux-dirs'] + list(args['paux_dirs'])       # (list-valued: before the other options, the file name comes last)
+    argv += ['--renderer', args['renderer'], '--imager', 'none', '--vector-imager', 'none']
     if args.get('base_url'):
         argv += ['--base-url', args['base_url']]
     argv.append(args['file'])
@@ -1116,11 +1119,140 @@ def enumerate_cases(base_seed, tier):
                                 'ops': warm + [{'op': 'RUN', 'doc': 0, 'r': rr, 'crash': {'window': 'paux', 'k': kk, 'tear': t}},
                                                {'op': 'RUN', 'doc': 1, 'r': rr}, {'op': 'RUN', 'doc': 0, 'r': rr},
                                                {'op': 'RUN', 'doc': 1, 'r': rr}, {'op': 'RUN', 'doc': 1, 'r': 1 - rr}]})
+    out += pauxdirs_cases(base_seed, tier)
     return out
+
+
+# --------------------------------------------------------------------------
+# label files in OTHER directories (--paux-dirs): a main document in the top directory, two parts in partA/ and
+# partB/ (their job names may be equal: two 'index.tex' are common), optionally with one of the part files damaged
+
+PD_NAMES = [('a', 'b', 'main'), ('index', 'index', 'main'), ('part', 'part', 'book'), ('x', 'xx', 'main'), ('index', 'b', 'index'), ('index', 'index', 'index')]
+PD_DAMAGE = [None, ('truncate', 0), ('truncate', 1), ('empty', 0), ('notpickle', 1), ('delete', 0), ('foreign', 1)]
+
+
+def pauxdirs_cases(base_seed, tier):
+    out = []
+    for ni, names in enumerate(PD_NAMES):
+        for di, dmg in enumerate(PD_DAMAGE if tier == 'thorough' or ni == 1 else PD_DAMAGE[:2]):
+            for R in (('HTML5', 'XHTML') if tier == 'thorough' else ('HTML5',)):
+                out.append({'property': PID, 'seed': core.h64('C20-pauxdirs', ni, di, R),
+                            'swarm': {'pauxdirs': True, 'renderer': R, 'names': list(names)},
+                            'ops': [{'op': 'PD', 'damage': list(dmg) if dmg else None}]})
+    return out
+
+
+def _pd_source(tag, nlabels, refs):
+    lines = ['\\documentclass{article}', '\\begin{document}']
+    for k in range(nlabels):
+        lines.append('\\section{T%s%d}\\label{%sL%d}' % (tag, k, tag, k))
+        lines.append('Body %s%d.' % (tag, k))
+    for lab in refs:
+        lines.append('See \\ref{%s}.' % lab)
+    lines.append('\\end{document}')
+    return '\n'.join(lines) + '\n'
+
+
+def execute_pauxdirs(record, res):
+    sw = record['swarm']
+    R = sw['renderer']
+    na, nb, nm = sw['names']
+    root = lifetimes.make_root('c20pd')
+    top = os.path.join(root, 'top')
+    viol, log, info = [], [], {}
+    try:
+        for d in ('partA', 'partB'):
+            os.makedirs(os.path.join(top, d))
+        labsA = ['pdaL0', 'pdaL1']
+        labsB = ['pdbL0', 'pdbL1', 'pdbL2']
+        with open(os.path.join(top, 'partA', na + '.tex'), 'w') as f:
+            f.write(_pd_source('pda', 2, []))
+        with open(os.path.join(top, 'partB', nb + '.tex'), 'w') as f:
+            f.write(_pd_source('pdb', 3, []))
+        with open(os.path.join(top, nm + '.tex'), 'w') as f:
+            f.write(_pd_source('pdm', 1, labsA + labsB))
+        clock = lifetimes.T0 + 3600
+
+        def run(cwd, name, paux_dirs=None):
+            setup = {'root': top, 'cwd': cwd, 'clock': clock, 'crash': None, 'env': {'environ': {'HOME': top, 'TEXINPUTS': cwd}}}
+            return lifetimes.run_lifetime(JOB, {'file': name + '.tex', 'renderer': R, 'base_url': '', 'paux_dirs': paux_dirs}, setup, timeout=600)
+        saved = {}
+        for d, name in (('partA', na), ('partB', nb)):
+            st, out = run(os.path.join(top, d), name)
+            if st != 'ok' or not out.get('ok'):
+                viol.append({'sig': 'C20|escape|%s|%s' % (_site(out.get('traceback', '')), out.get('exception')),
+                             'detail': {'job': d, 'traceback': (out.get('traceback') or '')[-800:]}})
+                break
+            saved[d] = out['result']['saved'] or {}
+            log.append([d, sorted(saved[d])])
+        for op in record['ops']:
+            if op.get('op') != 'PD' or viol:
+                continue
+            damaged = None
+            if op.get('damage'):
+                kind, which = op['damage']
+                d, name = (('partA', na), ('partB', nb))[which % 2]
+                p = os.path.join(top, d, name + '.paux')
+                data = open(p, 'rb').read()
+                if kind == 'truncate':
+                    open(p, 'wb').write(data[:len(data) // 2])
+                elif kind == 'empty':
+                    open(p, 'wb').write(b'')
+                elif kind == 'notpickle':
+                    open(p, 'wb').write(b'<html>not a pickle</html>')
+                elif kind == 'delete':
+                    os.remove(p)
+                elif kind == 'foreign':
+                    open(p, 'wb').write(pickle.dumps({'Other': {'zz': {'ref': '9', 'id': 'zz'}}}))
+                damaged = d
+                info['pauxdirs_damaged_part'] = 1
+            st, out = run(top, nm, paux_dirs=['partA', 'partB'])
+            if st != 'ok' or not out.get('ok'):
+                viol.append({'sig': 'C20|escape|%s|%s' % (_site(out.get('traceback', '')), out.get('exception')),
+                             'detail': {'job': 'main', 'damage': op.get('damage'), 'traceback': (out.get('traceback') or '')[-800:]}})
+                break
+            restored = out['result']['restored'] or {}
+            log.append(['main', sorted(restored), op.get('damage')])
+            info['pauxdirs_main_run'] = 1
+            if na == nb:
+                info['pauxdirs_same_job_name'] = 1
+            for d in ('partA', 'partB'):
+                want = dict((lab, (v['ref'], v['title'], v['url'])) for lab, v in saved[d].items())
+                got = dict((lab, (x['ref'], x['title'], x['url'])) for lab, x in restored.items() if lab in want)
+                if d == damaged:
+                    if got and got != want:
+                        viol.append({'sig': 'C20|atworst-absent|pauxdirs', 'detail': {'part': d, 'got': got, 'saved': want, 'damage': op.get('damage')}})
+                    continue
+                if got != want:
+                    viol.append({'sig': 'C20|roundtrip|pauxdirs-%s' % ('missing-label' if len(got) < len(want) else 'wrong-data'),
+                                 'detail': {'part': d, 'got': got, 'saved': want, 'names': sw['names'], 'damage': op.get('damage')}})
+                    break
+            if viol:
+                break
+            # the references of the main document resolve to the restored data
+            for labattr, target, intree in out['result']['refs'] or []:
+                if target is None or not isinstance(target.get('id'), str):
+                    continue
+                lab = target['id']
+                if lab in restored and (target['ref'], target['url']) != (restored[lab]['ref'], restored[lab]['url']):
+                    viol.append({'sig': 'C20|ref|wrong-target', 'detail': {'label': lab, 'target': target, 'restored': restored[lab]}})
+                    break
+    finally:
+        lifetimes.remove_root(root)
+    res['violations'] = viol[:1]
+    res['probes'] = dict((k, 1) for k in info)
+    res['nontrivial'] = 'pauxdirs_main_run' in info
+    res['steps'] = len(log)
+    res['digest'] = core.hexdigest([record['swarm'], record['ops']])
+    res['log_digest'] = core.hexdigest(log)
+    res['states'] = [core.h64(core.hexdigest(log))]
+    return res
 
 
 def execute(record):
     res = core.empty_result()
+    if record['swarm'].get('pauxdirs'):
+        return execute_pauxdirs(record, res)
     root = lifetimes.make_root('c20')
     try:
         sim = Sim(record, os.path.join(root, 'proj'))
